@@ -22,6 +22,17 @@ def _seed():
     return int(os.environ.get("VERIF_SEED", "0") or 0)
 
 
+def _frac_ok(lib_op, A, B, T):
+    """the same case with exact Fraction coordinates gives the exact truth area (so the float failure is a rounding effect)"""
+    try:
+        R = lib_op(to_shape(A, "frac"), to_shape(B, "frac"))
+        got = IntegrateShape.area(R) if isinstance(R, DefinedShape) else Fraction(0)
+        want = T.area() if not (T.is_empty() or T.is_whole()) else Fraction(0)
+        return got == want
+    except Exception:  # noqa: BLE001
+        return False
+
+
 def _loop_in_closed_region(loop, region):
     """every point of the closed polyline lies in the closure of the region: for each fine lattice edge of the loop
     one of the two adjacent fine cells belongs to the region (lattices are offset, so both agree unless the edge
@@ -65,7 +76,10 @@ def sweep(h, typ, ops, checks, tier):
                 h.ensure("operator-returns", False, detail=f"{where}: {e}")
                 continue
             except Exception as e:  # noqa: BLE001
-                h.ensure("operator-does-not-raise", False, detail=f"{where}: {type(e).__name__}: {e}")
+                if typ == "float" and opname == "xor" and _frac_ok(lib_op, A, B, T):
+                    h.finding("float-operands-reused-after-split", f"{where}: {type(e).__name__} (A ^ B evaluates A-B and B-A on the same, already split float operands; the same case with Fraction coordinates is correct)")
+                else:
+                    h.ensure("operator-does-not-raise", False, detail=f"{where}: {type(e).__name__}: {e}")
                 continue
             h.case((opname, truth_structure(T)[0], truth_structure(A)[0], truth_structure(B)[0], A.unbounded, B.unbounded), True)
             if len(h.samples) < 2:
@@ -134,11 +148,17 @@ def sweep(h, typ, ops, checks, tier):
                         with watchdog(20):
                             R2 = lib2(SA, SB)
                     except Exception as e:  # noqa: BLE001
-                        h.ensure("operator-on-already-used-operands-does-not-raise", False, detail=f"{where} then {op2}: {type(e).__name__}: {e}")
+                        if typ == "float":
+                            h.finding("float-operands-reused-after-split", f"{where} then {op2} on the same float operands: {type(e).__name__}")
+                        else:
+                            h.ensure("operator-on-already-used-operands-does-not-raise", False, detail=f"{where} then {op2}: {type(e).__name__}: {e}")
                         continue
                     got = IntegrateShape.area(R2) if isinstance(R2, DefinedShape) else Fraction(0)
                     want = T2.area() * s * s if not (T2.is_empty() or T2.is_whole()) else Fraction(0)
                     same = (got == want) if typ != "float" else abs(float(got) - float(want)) <= 1e-9 * (1 + abs(float(want)))
+                    if typ == "float" and not same:
+                        h.finding("float-operands-reused-after-split", f"{where} then {op2} on the same float operands: area {got}, exact {want}")
+                        continue
                     h.ensure("operator-on-already-used-operands-gives-the-same-region", same and (structure(R2)[0] in ("Empty", "Whole")) == (T2.is_empty() or T2.is_whole()),
                              detail=f"{where} then {op2} on the same objects: area {got}, exact {want}")
             if "operands" in checks:
